@@ -144,7 +144,7 @@ def cases(tier, seed):
     n = 120 if tier == "quick" else 40000
     for i in range(n):
         yield {"gen": rnd.choice((4, 5)), "seed": rnd.randrange(1 << 30), "extras": {},
-               "seg": i % 3, "silent": None, "lat": 0.0}
+               "seg": i % 5, "silent": None, "lat": 0.0}
     # every single insertion at each step
     for gen in (4, 5):
         for step in C.STEPS:
@@ -198,6 +198,25 @@ def segmenter(mode, rnd):
         return None
     if mode == 1:
         return lambda raw: [(0.0, bytes([b])) for b in raw]  # byte at a time
+
+    if mode == 3:
+        # every frame in two segments with a pause of 0.4 s at a random cut (six answers:
+        # 2.4 s, inside the 5 s budget)
+        def seg3(raw):
+            cut = rnd.randint(1, len(raw) - 1)
+            return [(0.0, raw[:cut]), (0.4, raw[cut:])]
+        return seg3
+    if mode == 4:
+        # one frame of the handshake stalls for 1.5 s in the middle
+        state = {"n": 0, "at": rnd.randint(0, 5)}
+
+        def seg4(raw):
+            state["n"] += 1
+            if state["n"] - 1 == state["at"]:
+                cut = rnd.randint(1, len(raw) - 1)
+                return [(0.0, raw[:cut]), (1.5, raw[cut:])]
+            return [(0.0, raw)]
+        return seg4
 
     def seg(raw):
         out = []
